@@ -130,7 +130,7 @@ def cqltype_to_python(cql_string):
         (r'<', lambda s, t: ', ['),
         (r'>', lambda s, t: ']'),
         (r'[, ]', lambda s, t: t),
-        (r'".*?"', lambda s, t: "'{}'".format(t)),
+        (r'".*?"', lambda s, t: repr(t)),
     ))
 
     scanned_tokens = scanner.scan(cql_string)[0]
@@ -152,7 +152,7 @@ def python_to_cqltype(types):
         (r',\s*\[', lambda s, t: '<'),
         (r'\]', lambda s, t: '>'),
         (r'[, ]', lambda s, t: t),
-        (r'\'".*?"\'', lambda s, t: t[1:-1]),
+        (r'\'".*?"\'', lambda s, t: t[1:-1].replace("\\'", "'")),
     ))
 
     scanned_tokens = scanner.scan(repr(types))[0]
